@@ -787,8 +787,9 @@ func (s *Server) pushUpdateLatest(data *tracerData) error {
 	// calculate diff
 	update := calcUpdate(s.syncSchema, data, s.lastPushData, s.syncShallowClocks)
 
-	// nothing to push
-	if len(update.Indexes) == 0 {
+	// nothing to push (a queue-tick-only change still has to reach the client,
+	// it is a part of the checksum of every later update)
+	if len(update.Indexes) == 0 && update.QueueTick == 0 && update.MachTick == 0 {
 		return nil
 	}
 
